@@ -5,6 +5,7 @@ import LasModel.Driver.VlrD
 import LasModel.Driver.HdrD
 import LasModel.Driver.SpecD
 import LasModel.Driver.FileD
+import LasModel.Driver.ReaderD
 namespace LasModel.Driver
 
 def dispatch (line : String) : String :=
@@ -15,6 +16,7 @@ def dispatch (line : String) : String :=
   | "hdr" :: rest => (HdrD.handle rest).getD "bad-op"
   | "spec" :: rest => (SpecD.handle rest).getD "bad-op"
   | "file" :: rest => (FileD.handle rest).getD "bad-op"
+  | "rd" :: rest => (ReaderD.handle rest).getD "bad-op"
   | _ => "bad-op"
 
 partial def loop (h : IO.FS.Stream) (out : IO.FS.Stream) : IO Unit := do
